@@ -77,12 +77,41 @@ class AttrUse(ast.NodeVisitor):
 
     def __init__(self, selfn):
         self.selfn = selfn
-        self.events = []        # (kind, name, lineno)  kind in read / write / call / mutate
+        self.events = []        # (kind, name, lineno)  kind in read / write / cwrite / call / ccall / mutate
+        self.cond = 0           # depth of enclosing conditional constructs (if / while / try / and-or / ifexp)
+
+    def _cond(self, nodes):
+        self.cond += 1
+        for n in nodes:
+            self.visit(n)
+        self.cond -= 1
+
+    def visit_If(self, node):
+        self.visit(node.test)
+        self._cond(node.body)
+        self._cond(node.orelse)
+
+    def visit_While(self, node):
+        self._cond([node.test] + node.body + node.orelse)
+
+    def visit_Try(self, node):
+        self._cond(node.body + [h for h in node.handlers] + node.orelse + node.finalbody)
+
+    def visit_IfExp(self, node):
+        self.visit(node.test)
+        self._cond([node.body, node.orelse])
+
+    def visit_BoolOp(self, node):
+        self.visit(node.values[0])
+        self._cond(node.values[1:])
+
+    def _w(self):
+        return "write" if self.cond == 0 else "cwrite"
 
     def visit_Attribute(self, node):
         if isinstance(node.value, ast.Name) and node.value.id == self.selfn:
             if isinstance(node.ctx, ast.Store):
-                self.events.append(("write", node.attr, node.lineno))
+                self.events.append((self._w(), node.attr, node.lineno))
             else:
                 self.events.append(("read", node.attr, node.lineno))
         else:
@@ -98,13 +127,13 @@ class AttrUse(ast.NodeVisitor):
         if isinstance(node.target, ast.Attribute) and isinstance(node.target.value, ast.Name) \
                 and node.target.value.id == self.selfn:
             self.events.append(("read", node.target.attr, node.lineno))
-            self.events.append(("write", node.target.attr, node.lineno))
+            self.events.append((self._w(), node.target.attr, node.lineno))
         else:
             self._target(node.target)
 
     def _target(self, t):
         if isinstance(t, ast.Attribute) and isinstance(t.value, ast.Name) and t.value.id == self.selfn:
-            self.events.append(("write", t.attr, t.lineno))
+            self.events.append((self._w(), t.attr, t.lineno))
         elif isinstance(t, ast.Subscript):
             # self.x[...] = v   mutates x
             base = t.value
@@ -126,7 +155,7 @@ class AttrUse(ast.NodeVisitor):
                 self.visit(a)
             for k in node.keywords:
                 self.visit(k.value)
-            self.events.append(("call", f.attr, node.lineno))
+            self.events.append(("call" if self.cond == 0 else "ccall", f.attr, node.lineno))
             return
         if isinstance(f, ast.Attribute) and f.attr in MUTATORS:
             base = f.value
@@ -185,7 +214,7 @@ def object_invariant(cls, entry, g, label=None):
         if name == "__init__":
             continue
         for kind, attr, _ in events:
-            if kind in ("write", "mutate"):
+            if kind in ("write", "cwrite", "mutate"):
                 written_outside.add(attr)
     init_values = {}
     if "__init__" in meths:
@@ -210,25 +239,83 @@ def object_invariant(cls, entry, g, label=None):
     # having assigned them itself
     memo = {}
 
-    def needs(name, stack=()):
-        """attrs that method `name` may read before assigning them (on its own straight-line order)"""
+    def expr_events(node):
+        v = AttrUse(self_name(meths[cur_method[0]][0]))
+        v.visit(node)
+        return v.events
+
+    cur_method = [entry]
+
+    def flow(stmts, assigned, stack):
+        """(attrs possibly read before assignment, attrs definitely assigned afterwards)"""
+        need = set()
+
+        def use(events, assigned):
+            for kind, attr, _ in events:
+                if kind in ("write", "cwrite"):
+                    if kind == "write":
+                        assigned.add(attr)
+                elif kind in ("read", "mutate"):
+                    if attr not in assigned:
+                        need.add(attr)
+                elif kind in ("call", "ccall"):
+                    n2, a2 = summary(attr, stack)
+                    need.update(a for a in n2 if a not in assigned)
+                    if kind == "call":
+                        assigned |= a2
+        for st in stmts:
+            if isinstance(st, ast.If):
+                use(expr_events(st.test), assigned)
+                n1, a1 = flow(st.body, set(assigned), stack)
+                n2, a2 = flow(st.orelse, set(assigned), stack)
+                need |= n1 | n2
+                assigned = a1 & a2
+            elif isinstance(st, (ast.For, ast.While)):
+                use(expr_events(st.iter if isinstance(st, ast.For) else st.test), assigned)
+                n1, _ = flow(st.body, set(assigned), stack)
+                n2, _ = flow(st.orelse, set(assigned), stack)
+                need |= n1 | n2
+            elif isinstance(st, ast.Try):
+                n1, a1 = flow(st.body, set(assigned), stack)
+                need |= n1
+                after = a1
+                for h in st.handlers:
+                    nh, ah = flow(h.body, set(assigned), stack)
+                    need |= nh
+                    after = after & ah
+                n3, a3 = flow(st.orelse, set(a1), stack)
+                need |= n3
+                n4, a4 = flow(st.finalbody, set(assigned), stack)
+                need |= n4
+                assigned = (after & a3 if st.orelse else after) | a4
+            elif isinstance(st, ast.With):
+                for it in st.items:
+                    use(expr_events(it.context_expr), assigned)
+                n1, a1 = flow(st.body, assigned, stack)
+                need |= n1
+                assigned = a1
+            elif isinstance(st, (ast.FunctionDef, ast.ClassDef)):
+                continue
+            else:
+                use(expr_events(st), assigned)
+        return need, assigned
+
+    def summary(name, stack=()):
         if name in memo:
             return memo[name]
-        if name in stack or name not in ev:
-            return set()
-        assigned, need = set(), set()
-        for kind, attr, _ in ev[name]:
-            if kind == "write":
-                assigned.add(attr)
-            elif kind in ("read", "mutate"):
-                if attr not in assigned:
-                    need.add(attr)
-            elif kind == "call":
-                for a in needs(attr, stack + (name,)):
-                    if a not in assigned:
-                        need.add(a)
-        memo[name] = need
-        return need
+        if name in stack or name not in meths:
+            return set(), set()
+        prev = cur_method[0]
+        cur_method[0] = name
+        try:
+            res = flow(meths[name][0].body, set(), stack + (name,))
+        finally:
+            cur_method[0] = prev
+        memo[name] = res
+        return res
+
+    def needs(name):
+        return summary(name)[0]
 
     bad = sorted(a for a in needs(entry) if not is_config(a))
     g.check(f"{label}: every attribute read is configuration or assigned in this call before its first read",
